@@ -242,6 +242,44 @@ def byte_accounting(ctx, rule):
         rule.ok("BlockWriter::is_completed", "bytes_left == 0", loc(ic.sp))
     else:
         rule.violation("BlockWriter::is_completed", "is_completed returns %s, expected bytes_left == 0" % [show(e, 60) for _, e in rets], loc(ic.sp))
+    # the limit of decoded output is the announced content length itself
+    for a in field_accesses(prog, BW, "content_length_left"):
+        caller = a["func"].root().path.split("::")[-1]
+        key = "%s %s BlockWriter.content_length_left" % (caller, a["kind"])
+        if a["kind"] == "construct":
+            if show(a["value"]) == "content_length":
+                rule.ok(key, "= content_length", loc(a["sp"]))
+            else:
+                rule.violation(key, "the decoded-output limit starts at %s, not at the announced content length: decoded content is cut (or not "
+                                    "cut) at another size while the object is still reported complete" % show(a["value"], 80), loc(a["sp"]))
+        elif a["kind"] in ("assign", "assign_sub", "borrow_mut") and caller not in ("decoder_read",):
+            rule.violation(key, "content_length_left written outside decoder_read", loc(a["sp"]))
+    # MD5 is finalised whenever the writer becomes complete: every Ok exit of write() past is_completed() == true passes `self.md5 = ..`
+    md5_assign = set(a["bb"] for a in field_accesses(prog, BW, "md5", funcs=[w]) if a["kind"] == "assign")
+    okret = [bb for bb, e in ret_assign_blocks(w.body, lambda e: is_variant(e, "Ok") or (e[0] == "call" and "Result" in e[1]))]
+    allret = [bb for bb, e in ret_assign_blocks(w.body, lambda e: not is_variant(e, "Err") and "from_residual" not in show(e, 60))]
+    starts = []
+    for blk in w.body.blocks:
+        t_ = blk.term
+        if t_.k == "switch":
+            for k in range(len(t_.targets) + 1):
+                if any(a[0] == "true" and t and a[1][0] == "call" and a[1][1].endswith("BlockWriter::is_completed") for (a, t) in wf.edge_facts(("e", blk.i, k))):
+                    starts.append(t_.targets[k][1] if k < len(t_.targets) else t_.otherwise)
+    key = "BlockWriter::write finalises the MD5 when the object is complete"
+    if not starts or not md5_assign:
+        rule.violation(key, "no `is_completed()` branch (%d) / no assignment of self.md5 (%d) in write()" % (len(starts), len(md5_assign)), loc(w.sp))
+    else:
+        bad = None
+        for st_ in starts:
+            for rb in allret:
+                ok, wit = wf.must_pass(st_, [rb], lambda n: n[0] == "b" and n[1] in md5_assign)
+                if not ok:
+                    bad = wit
+        if bad is None:
+            rule.ok(key, "every non-error exit past is_completed() passes `self.md5 = ..`", loc(w.sp))
+        else:
+            rule.violation(key, "write() can return without an error after the last block although the MD5 was not finalised (check_md5 treats a missing "
+                                "digest as a match): %s" % path_text(w.body, bad), loc(w.sp))
     # construction site
     n = 0
     for s in find_calls(prog, "^" + re.escape(BW) + "::new$"):
@@ -260,7 +298,50 @@ def byte_accounting(ctx, rule):
                 rule.violation(key, "argument `%s` is %s" % (nm, ex[:100]), s.loc)
     if n == 0:
         raise model.AnchorMissing("BlockWriter::new is never called")
-    rule.floor(9, "byte accounting facts")
+    md5_switch_order(ctx, rule)
+    rule.floor(12, "byte accounting facts")
+
+
+def md5_switch_order(ctx, rule):
+    """the writer's wish to have the MD5 checked is asked before the BlockWriter (which computes the digest only if told so) is built"""
+    prog = ctx.prog
+    f = prog.fn(OR + "::init_object_writer")
+    fl = Flow(f.body)
+    news = call_sites(f, lambda p, c: p == BW + "::new")
+    sets = [a for a in field_accesses(prog, OR, "enable_md5_check", funcs=[f]) if a["kind"] == "assign"]
+    key = "init_object_writer: enable_md5_check decided before BlockWriter::new"
+    if not news or not sets:
+        rule.violation(key, "BlockWriter::new (%d) / assignment of enable_md5_check (%d) not found in init_object_writer" % (len(news), len(sets)), loc(f.sp))
+        return
+    def reach_from(b0):
+        seen, work = set(), [b0]
+        while work:
+            b = work.pop()
+            t_ = f.body.blocks[b].term
+            nxt = []
+            if t_.k == "switch":
+                nxt = [x[1] for x in t_.targets] + [t_.otherwise]
+            elif getattr(t_, "target", None) is not None:
+                nxt = [t_.target]
+            for n_ in nxt:
+                if n_ is not None and n_ not in seen and not f.body.blocks[n_].cleanup:
+                    seen.add(n_)
+                    work.append(n_)
+        return seen
+    late = [a for a in sets for c in news if a["bb"] in reach_from(c.bb)]
+    after = [a for a in sets for c in news if c.bb != a["bb"] and fl.dominates(c.bb, a["bb"])]
+    if after or late:
+        rule.violation(key, "enable_md5_check is assigned after BlockWriter::new(.., self.enable_md5_check) read it: the digest is never computed and "
+                            "check_md5() treats a missing digest as a match, so a corrupted object is reported complete", loc((after or late)[0]["sp"]))
+    else:
+        rule.ok(key, "", news[0].loc)
+    # the value comes from the writer itself
+    sl = Slicer(f.body)
+    for a in sets:
+        if any(z.endswith("ObjectWriter::enable_md5_check") for z in sl.sources(a["value"])):
+            rule.ok("init_object_writer: enable_md5_check <- writer.enable_md5_check()", "", loc(a["sp"]))
+        else:
+            rule.violation("init_object_writer: enable_md5_check <- writer.enable_md5_check()", "assigned %s" % show(a["value"], 60), loc(a["sp"]))
 
 
 _emit_cache = {}
